@@ -787,10 +787,15 @@ pub fn judge_round(kind: Kind, r: &RoundObs, hist: &mut Hist) -> Vec<(String, St
 
     // the log line must describe what was actually released (the end-to-end monitors trust it)
     let parsed = util::parse_log(&r.log);
+    // batches of more than 8 items are logged as "[a, .., h, ..] (N total)"
+    let mut log_truncated = false;
     let logged: Vec<i64> = match parsed.events.first() {
         None => vec![],
         Some(util::Event::Obs(Note::NoItems)) => vec![],
-        Some(util::Event::Obs(Note::Items { nums, .. })) => nums.clone(),
+        Some(util::Event::Obs(Note::Items { nums, truncated, .. })) => {
+            log_truncated = *truncated;
+            nums.clone()
+        }
         Some(util::Event::Obs(Note::KeyedSnap { entries })) => entries.iter().flat_map(|e| [e.0, e.1]).collect(),
         Some(util::Event::Obs(Note::Snapshot { value, .. })) => value.clone(),
         Some(util::Event::Obs(Note::Observed { nums, .. })) => nums.clone(),
@@ -805,7 +810,8 @@ pub fn judge_round(kind: Kind, r: &RoundObs, hist: &mut Hist) -> Vec<(String, St
     } else {
         r.released.iter().map(|(_, v)| *v).collect()
     };
-    if logged != actual {
+    let log_ok = if log_truncated { actual.len() > logged.len() && actual[..logged.len()] == logged[..] } else { logged == actual };
+    if !log_ok {
         fail("log-mismatch", format!("log says {logged:?} ({:?}) but channel got {actual:?}", r.log.trim()));
     }
     bad
